@@ -39,6 +39,13 @@ type c19Case struct {
 	// for the Logout type that refuses it.  Either way it must not be transmitted.
 	Final       string `json:"final,omitempty"`
 	RefuseFinal bool   `json:"refuse_final,omitempty"`
+	// InRefuse (inbound): bit i set = the i-th all-types incoming handler (in registration order) returns
+	// false.  What that does to the remaining all-types handlers the statement leaves open; the handlers of
+	// the message's own type are offered the message regardless.
+	InRefuse int `json:"in_refuse,omitempty"`
+	// CounterFailAt = k > 0 (inbound): the counter store refuses the k-th recording of an inbound number
+	// after the logon, once; the message that was being recorded is still handled (a TestRequest answered).
+	CounterFailAt int `json:"counter_fail_at,omitempty"`
 	// Backlog > 0 (inbound): the handler is stopped while the dispatcher is inside a callback and this many
 	// further messages are queued; every one of them is still offered to the handlers, in order.
 	Backlog int `json:"backlog,omitempty"`
@@ -55,6 +62,25 @@ type failingStore struct {
 }
 
 var errSave = errors.New("injected save failure")
+
+// failingCounter wraps the memory store as CounterStorage: the failAt-th SetSeqNum for the incoming side
+// after arming fails once.
+type failingCounter struct {
+	*memory.Storage
+	n      int
+	failAt int
+	armed  bool
+}
+
+func (f *failingCounter) SetSeqNum(id fix.StorageID, seq int) error {
+	if f.armed && id.Side == fix.Incoming {
+		f.n++
+		if f.failAt != 0 && f.n == f.failAt {
+			return errors.New("injected counter store failure")
+		}
+	}
+	return f.Storage.SetSeqNum(id, seq)
+}
 
 func (f *failingStore) Save(id fix.StorageID, msg simplefixgo.SendingMessage, seq int) error {
 	if f.armed {
@@ -73,7 +99,8 @@ func c19Run(c c19Case) (string, string) {
 	var log []string
 	st := memory.NewStorage()
 	fs := &failingStore{Storage: st, log: &log, failAt: c.FailAt, saved: map[int][]byte{}}
-	w := newWorld(wcfg{Role: c.Role, Buf: 20, HbMin: 5, HbMax: 30, HbInt: 30, Store: st, MS: fs})
+	fc := &failingCounter{Storage: st, failAt: c.CounterFailAt}
+	w := newWorld(wcfg{Role: c.Role, Buf: 20, HbMin: 5, HbMax: 30, HbInt: 30, Store: st, MS: fs, CS: fc})
 	w.logonOK(30)
 	if !w.s.IsLogged() {
 		return "setup:not-logged", ""
@@ -83,6 +110,52 @@ func c19Run(c c19Case) (string, string) {
 			return fixgen.CreateHeartbeat().SetTestReqID("app")
 		}
 		return fixgen.NewMarketDataRequest().SetMDReqID("r")
+	}
+	if c.Inbound && c.CounterFailAt > 0 {
+		fc.armed = true
+		w.take()
+		for i := 1; i <= 3; i++ {
+			id := fmt.Sprintf("T%d", i)
+			w.in(w.msg("1", "112="+id))
+			outs := w.take()
+			if countType(outs, "0") != 1 {
+				return "inbound-not-handled-after-counter-store-fault", fmt.Sprintf("TestRequest %d (the store refused recording #%d): outs=[%s]", i, c.CounterFailAt, outsStr(outs))
+			}
+			if got, _ := get(outs[0].Msg, "112"); got != id {
+				return "inbound-not-handled-after-counter-store-fault", fmt.Sprintf("TestRequest %d answered with %q", i, got)
+			}
+		}
+		return "", ""
+	}
+	if c.Inbound && c.InRefuse > 0 {
+		var calls []string
+		ai := 0
+		for i, k := range c.Order {
+			name := fmt.Sprintf("%c%d", k, i)
+			if k == 'A' {
+				refuse := c.InRefuse&(1<<ai) != 0
+				ai++
+				w.h.HandleIncoming(simplefixgo.AllMsgTypes, func(data []byte) bool { calls = append(calls, name); return !refuse })
+			} else {
+				w.h.HandleIncoming("D", func(data []byte) bool { calls = append(calls, name); return true })
+			}
+		}
+		w.in(w.msg("D", "11=x"))
+		var gotT, wantT []string
+		for _, n := range calls {
+			if n[0] == 't' {
+				gotT = append(gotT, n)
+			}
+		}
+		for i, k := range c.Order {
+			if k == 't' {
+				wantT = append(wantT, fmt.Sprintf("t%d", i))
+			}
+		}
+		if strings.Join(gotT, ",") != strings.Join(wantT, ",") {
+			return "inbound-type-handlers-skipped", fmt.Sprintf("order %s, all-types refusals %b: called %v, type handlers expected %v", c.Order, c.InRefuse, calls, wantT)
+		}
+		return "", ""
 	}
 	if c.Inbound && c.Backlog > 0 {
 		var got []string
@@ -470,6 +543,19 @@ func runC19(R *vlib.Out) {
 			scenarioBudget = vlib.Remaining() / 8
 			exploreSched(R, sc)
 			scenarioBudget = 0
+		}
+		for k := 1; k <= 3; k++ {
+			if !try(c19Case{Role: role, Inbound: true, CounterFailAt: k}) {
+				return
+			}
+		}
+		for _, o := range []string{"At", "tA", "AAt", "AtAt", "ttA"} {
+			na := strings.Count(o, "A")
+			for r := 1; r < 1<<na; r++ {
+				if !try(c19Case{Role: role, Order: o, Inbound: true, InRefuse: r}) {
+					return
+				}
+			}
 		}
 		for _, final := range []string{"logout", "stop"} {
 			for _, o := range []string{"", "A", "At"} {
